@@ -102,3 +102,25 @@ Definition tar_mode_back (hdr_mode : N) : N :=
   let p := if has hdr_mode 1024 then N.lor p S_ISGID else p in
   let p := if has hdr_mode 512 then N.lor p S_ISVTX else p in
   p.
+
+(* ---------- the gnu-tar and mtree writers (tarfs.go, mtreefs.go) ---------- *)
+
+(* CreateDevice: n.Mode&os.ModeCharDevice != 0 selects TypeChar / "type=char" ... *)
+Definition writer_is_char (fm : N) : bool := has fm GoModeCharDevice.
+(* ... before "fix: gnu-tar and mtree output report character devices as such": n.Mode&0x4000 *)
+Definition writer_is_char_prefix (fm : N) : bool := has fm 16384.
+
+(* mtreefs.go: mode=%04o of FilemodeToStatMode(n.Mode)&07777 ... *)
+Definition mtree_mode (fm : N) : N := chmod_bits (filemode_to_stat fm).
+(* ... before "fix: mtree output pads nanoseconds with zeros and shows set-id/sticky bits": n.Mode.Perm() *)
+Definition mtree_mode_prefix (fm : N) : N := N.land fm GoModePerm.
+
+(* time=%d.%09d: the nanoseconds as exactly nine decimal digits, most significant first *)
+Fixpoint dec_digits (k : nat) (n : N) : list N :=
+  match k with
+  | O => []
+  | S k' => dec_digits k' (n / 10) ++ [n mod 10]
+  end.
+Definition fmt_nsec (ns : N) : list N := dec_digits 9 ns.
+(* how a reader takes the fraction: the digits as a number over 10^(number of digits) *)
+Definition read_digits (ds : list N) : N := fold_left (fun acc d => 10 * acc + d) ds 0.
